@@ -15,5 +15,5 @@ class Check(PropertyCheck):
     assumptions = ["deposits and reserves are 128-bit"]
 
     def families(self, rng, tier):
-        return [("guards.assert_slippage_tolerance", fam_guards.slippage_cases(rng, tier)),
-                ("world.guards", fam_world.guard_histories(rng, tier))]
+        return [("guards.assert_slippage_tolerance", fam_guards.slippage_cases(rng.sub("slippage_cases"), tier)),
+                ("world.guards", fam_world.guard_histories(rng.sub("guard_histories"), tier))]
